@@ -130,9 +130,18 @@ pub async fn run_life(log: &Log, sched: &Sched, cfg: &LifeCfg, schedule: &[Strin
                     set(&k2, "done");
                 });
             }
-            "eof" => rg.inp.inject_eof(),
-            "rerr" => rg.inp.inject_read_error(std::io::ErrorKind::ConnectionReset, "connection reset by peer"),
-            "ueof" => rg.inp.inject_read_error(std::io::ErrorKind::UnexpectedEof, "peer closed connection without sending TLS close_notify"),
+            "eof" | "rerr" | "ueof" => {
+                // the transport ends at a byte offset inside a frame: fault_at bytes of a frame arrive first
+                if cfg.fault_at > 0 {
+                    let f = frame_bytes(2, sid, &[9u8; 40]);
+                    rg.inp.push(&f[..(cfg.fault_at as usize).min(f.len() - 1)]);
+                }
+                match cfg.cause.as_str() {
+                    "eof" => rg.inp.inject_eof(),
+                    "rerr" => rg.inp.inject_read_error(std::io::ErrorKind::ConnectionReset, "connection reset by peer"),
+                    _ => rg.inp.inject_read_error(std::io::ErrorKind::UnexpectedEof, "peer closed connection without sending TLS close_notify"),
+                }
+            }
             "alert" => rg.inp.push(&frame_bytes(5, 0, b"fatal")),
             _ => {}
         }
@@ -204,7 +213,7 @@ pub fn run(args: &Args, log: &Log) -> Result<(), String> {
                 let causes: Vec<String> = if cause == "rerr" { vec!["rerr".into(), "ueof".into()] } else { vec![cause.clone()] };
                 for c in causes {
                     let wlen = *r.pick(&[1usize, 50, 3000, 70000]);
-                    let fault_at = *r.pick(&[0u64, 1, 6, 7, 8, 9, 30]).min(&(wlen as u64 + 6));
+                    let fault_at = if c == "werr" || c == "wblock" { *r.pick(&[0u64, 1, 6, 7, 8, 9, 30]).min(&(wlen as u64 + 6)) } else { *r.pick(&[0u64, 0, 1, 6, 7, 8, 30]) };
                     let faulty = c == "werr" || c == "wblock";
                     let cfg = LifeCfg { role, cause: c, fault_at, wlen, scheme: *r.pick(&SCHEMES), fresh: !faulty && role != "server" && r.chance(1, 5) };
                     run_life(log, &sched, &cfg, &schedule, json!({"kind": "gen", "i": i, "sched": schedule.join("")})).await;
@@ -221,7 +230,8 @@ pub fn run(args: &Args, log: &Log) -> Result<(), String> {
                 if cause == "monitor" && role != "client-hb" { continue; }
                 for (si, scheme) in SCHEMES.iter().enumerate() {
                     if role == "server" && si > 0 { continue; }
-                    let offs: Vec<u64> = if cause == "werr" || cause == "wblock" { offsets.clone() } else { vec![0] };
+                    let offs: Vec<u64> = if cause == "werr" || cause == "wblock" { offsets.clone() }
+                        else if cause == "eof" || cause == "rerr" || cause == "ueof" { vec![0, 1, 6, 7, 8, 30] } else { vec![0] };
                     for off in offs {
                         for sc in &scheds {
                             if !thorough && (i % 3 != (args.seed % 3)) && sc.len() > 1 { i += 1; continue; }
